@@ -1,10 +1,18 @@
 package world
 
 import (
+	"bytes"
+	"encoding/base64"
 	"encoding/json"
 	"fmt"
 	"net/url"
 	"strings"
+	"time"
+
+	"github.com/nuts-foundation/go-did/did"
+	"github.com/nuts-foundation/go-did/vc"
+	"github.com/nuts-foundation/nuts-node/vcr/holder"
+	"github.com/nuts-foundation/nuts-node/vcr/signature/proof"
 )
 
 // Web-node workload helpers: the same internal REST calls an operator's application makes
@@ -126,4 +134,67 @@ func IsTokenResponse(code int, body []byte) bool {
 	}
 	s, _ := m["access_token"].(string)
 	return strings.TrimSpace(s) != ""
+}
+
+// ResignJWT takes a compact JWT made by this node (e.g. a captured presentation), lets edit
+// change its claims, and has the node's own signing API sign the result with the same key: what
+// the operator of a client node can do with the keys it holds.
+func (n *Node) ResignJWT(token string, edit func(claims map[string]interface{})) (string, error) {
+	parts := strings.Split(strings.TrimSpace(token), ".")
+	if len(parts) != 3 {
+		return "", fmt.Errorf("not a compact JWT")
+	}
+	hdrJSON, err := base64.RawURLEncoding.DecodeString(parts[0])
+	if err != nil {
+		return "", err
+	}
+	claimsJSON, err := base64.RawURLEncoding.DecodeString(parts[1])
+	if err != nil {
+		return "", err
+	}
+	var hdr struct {
+		Kid string `json:"kid"`
+	}
+	if err := json.Unmarshal(hdrJSON, &hdr); err != nil || hdr.Kid == "" {
+		return "", fmt.Errorf("no kid in header: %s", hdrJSON)
+	}
+	dec := json.NewDecoder(bytes.NewReader(claimsJSON))
+	dec.UseNumber()
+	claims := map[string]interface{}{}
+	if err := dec.Decode(&claims); err != nil {
+		return "", err
+	}
+	edit(claims)
+	code, body := n.Call("POST", "/internal/crypto/v1/sign_jwt", map[string]interface{}{"kid": hdr.Kid, "claims": claims})
+	if code != 200 {
+		return "", fmt.Errorf("sign_jwt: %d %s", code, body)
+	}
+	return strings.Trim(strings.TrimSpace(string(body)), "\""), nil
+}
+
+// ReissueLDPresentation builds a JSON-LD presentation with the node's own wallet code and keys
+// that carries the credentials, holder, domain and proof purpose of a captured one, with the
+// given nonce and proof times: what the operator of a client node - or a client whose clock is
+// off - produces.
+func (n *Node) ReissueLDPresentation(captured []byte, created time.Time, expires time.Time, nonce string) ([]byte, error) {
+	vp, err := vc.ParseVerifiablePresentation(string(captured))
+	if err != nil {
+		return nil, err
+	}
+	var proofs []proof.LDProof
+	if err := vp.UnmarshalProofValue(&proofs); err != nil || len(proofs) == 0 {
+		return nil, fmt.Errorf("captured presentation has no JSON-LD proof: %v", err)
+	}
+	old := proofs[0]
+	signer, err := did.ParseDIDURL(old.VerificationMethod.String())
+	if err != nil {
+		return nil, err
+	}
+	opts := holder.PresentationOptions{Holder: vp.Holder, Format: "ldp_vp", ProofOptions: proof.ProofOptions{
+		Created: created, Expires: &expires, Domain: old.Domain, Challenge: old.Challenge, ProofPurpose: old.ProofPurpose, Nonce: &nonce}}
+	out, err := n.VCR().Wallet().BuildPresentation(Ctx(), vp.VerifiableCredential, opts, &signer.DID, false)
+	if err != nil {
+		return nil, err
+	}
+	return json.Marshal(out)
 }
